@@ -424,7 +424,7 @@ class Builder:
             return self.leaf()
         table = list(EXPR_KINDS)
         if lam:
-            table += [(2, "Yield"), (1, "YieldFrom")]
+            table += [(4, "Yield"), (2, "YieldFrom")]
         if code:
             table = [(w, k) for w, k in table if k != "Code"]
         kind = self.weighted(table)
@@ -472,9 +472,11 @@ class Builder:
         return {"t": "Call", "f": f, "args": args, "kws": kws}
 
     def k_Lambda(self, d, lam, code):
-        npo, npk, va, nko, vk = self.count(0, 2), self.count(0, 2), self.flag(40), self.count(0, 2), self.flag(30)
-        defs = [self.expr(max(d - 2, 0), False, code) for _ in range(self.count(0, min(2, npo + npk)))]
-        kdefs = [self.expr(max(d - 2, 0), False, code) if self.flag(40) else None for _ in range(nko)]
+        # every legal parameter list: 0-3 positional-only, 0-4 regular, any right-aligned run of positional defaults
+        # (partial runs in either group, runs spanning `/`), *args, 0-3 keyword-only with defaults at any positions, **kw
+        npo, npk, va, nko, vk = self.count(0, 3), self.count(0, 4), self.flag(40), self.count(0, 3), self.flag(30)
+        defs = [self.expr(max(d - 2, 0), False, code) for _ in range(self.count(0, npo + npk))]
+        kdefs = [self.expr(max(d - 2, 0), False, code) if self.flag(50) else None for _ in range(nko)]
         return {"t": "Lambda", "npo": npo, "npk": npk, "va": va, "nko": nko, "vk": vk, "defs": defs, "kdefs": kdefs,
                 "body": self.expr(d - 1, True, code)}  # fmt: skip
 
@@ -631,6 +633,30 @@ class Builder:
         if kind == "Literal":
             return self.k_Literal(d, False, code)
         return self.expr(d, False, code, compound=True)
+
+
+def signature_shapes(max_po: int, max_pk: int, max_ko: int) -> list:
+    """Every parameter-list shape within the bounds: (npo, npk, nd, va, nko, kmask, vk); nd = length of the
+    right-aligned run of positional defaults (0..npo+npk), kmask = which keyword-only parameters have a default."""
+    out = []
+    for npo in range(max_po + 1):
+        for npk in range(max_pk + 1):
+            for nd in range(npo + npk + 1):
+                for va in (False, True):
+                    for nko in range(max_ko + 1):
+                        for kmask in range(1 << nko):
+                            for vk in (False, True):
+                                out.append((npo, npk, nd, va, nko, kmask, vk))
+    return out
+
+
+def signature_lambda(shape) -> dict:
+    """Lambda model of a shape; every default is a distinct integer (1, 2, ...) so that a misplaced default shows."""
+    npo, npk, nd, va, nko, kmask, vk = shape
+    defs = [{"t": "Const", "k": "int", "v": str(i + 1)} for i in range(nd)]
+    kdefs = [{"t": "Const", "k": "int", "v": str(nd + i + 1)} if kmask >> i & 1 else None for i in range(nko)]
+    return {"t": "Lambda", "npo": npo, "npk": npk, "va": bool(va), "nko": nko, "vk": bool(vk), "defs": defs, "kdefs": kdefs,
+            "body": {"t": "Name", "id": "a"}}  # fmt: skip
 
 
 def choice_lists(min_size: int = 16, max_size: int = 160):
